@@ -567,10 +567,9 @@ def s5Client (auth : Bool) (authMsg : Bytes) (cmd : UInt8) (enc : Bytes) (stream
 
 /-! ### ss2022/stream.go — `ShadowStreamConn.read`: payload chunks of an authenticated (but possibly hostile) peer -/
 
-/-- `(*ShadowStreamConn).read(b)`: `cap` = `cap(b)`; `openChunk` = AEAD open of one sealed chunk (in place).
-Returns the chunk's payload length and the rest of the stream. -/
-def streamRead (cap : Nat) (openChunk : Bytes → Option Bytes) (s : Bytes) : R (Nat × Bytes) :=
-  if cap < Gen.C06.streamReadMinBufferSize then .panic else
+/-- `(*ShadowStreamConn).readChunk(b)` (the framing; no capacity check of its own): `cap` = `cap(b)`;
+`openChunk` = AEAD open of one sealed chunk (in place). Returns the payload length and the rest of the stream. -/
+def streamReadChunk (cap : Nat) (openChunk : Bytes → Option Bytes) (s : Bytes) : R (Nat × Bytes) :=
   if cap < 2 + Gen.C06.tagSize then .panic else do                       -- b[:2+tagSize]
   let (ct, s) ← readFull s (2 + Gen.C06.tagSize)
   match openChunk ct with
@@ -583,6 +582,14 @@ def streamRead (cap : Nat) (openChunk : Bytes → Option Bytes) (s : Bytes) : R 
     match openChunk ct2 with
     | Option.none => .err .aead
     | some _ => pure (length, s)
+
+/-- `(*ShadowStreamConn).read(b)`: capacity guard (explicit `panic`), then the sticky read error (`sticky` = `c.readErr`,
+set by an earlier failed read: returned without touching the buffer or the stream), then `readChunk`. -/
+def streamRead (cap : Nat) (sticky : Option Err) (openChunk : Bytes → Option Bytes) (s : Bytes) : R (Nat × Bytes) :=
+  if cap < Gen.C06.streamReadMinBufferSize then .panic else
+  match sticky with
+  | some e => .err e
+  | Option.none => streamReadChunk cap openChunk s
 
 /-! ### httpproxy/server.go — `hostHeaderToAddr`, `serverHandleBasicAuth` (own logic; `net.SplitHostPort`,
 `strconv.ParseUint`, `netip.ParseAddr` are parameters returning ok/err) -/
